@@ -188,7 +188,11 @@ class MDOChain(ProcessDiscipline):
                                     loc_dot + self.jac[output_name][new_in]
                                 )
                             else:
-                                self.jac[output_name][new_in] += loc_dot
+                                # Not in place: the Jacobian may be an array of integers
+                                # or a read-only array provided by a discipline.
+                                self.jac[output_name][new_in] = (
+                                    self.jac[output_name][new_in] + loc_dot
+                                )
                         else:
                             # The output is not yet linearized wrt this
                             # input_name.  We are in the case:
